@@ -259,6 +259,13 @@ def check_arith(rep, work, vh, cases, tag="a", timeout=900):
         for run, rv in zip(rec["runs"], v["runs"]):
             rep.count("evaluations")
             bump(rv["v"])
+            if run.get("mutated") and counters.get("operand_mutated", 0) < 20:
+                bump("operand_mutated")
+                c = case_of(rec, run)
+                rep.violation("%s with a=%s b=%s (%s) changes a number it was given: %s - every later use of that number is inexact" % (
+                    run["src"], c["a"], c.get("b"), "/".join(x for x in (run["la"], run.get("lb")) if x), run["mutated"]),
+                    {"family": "arith", "case": c, "src": run["src"], "actual": {"res": run["res"], "mutated": run["mutated"]}})
+                continue
             if rv["v"] == "agree":
                 rep.count("traces_validated_against_impl")
                 rep.nontrivial([rec["kind"], rec["op"], rec["a"], rec.get("b")])
